@@ -49,8 +49,13 @@ static rc::Gen<Scenario> c15_gen()
 		for (int t : transports) { Op o; o.kind = CONNECT; o.a = t; sc.ops.push_back(o); }
 		{ Op o; o.kind = ADD; o.conn = 0; o.a = 0; o.b = 1; sc.ops.push_back(o); }
 		{ Op o; o.kind = ADD; o.conn = 0; o.a = 1; o.b = -1; sc.ops.push_back(o); }
-		{ Op o; o.kind = FETCH; o.conn = 1; o.a = 0; o.b = 0; sc.ops.push_back(o); }
+		// four subscriptions fill the initial fetcher table of every element; the fifth one (below) makes it grow
+		for (int f = 0; f < 4; f++) { Op o; o.kind = FETCH; o.conn = 1; o.a = f; o.b = 0; sc.ops.push_back(o); }
 		for (auto &o : ops) sc.ops.push_back(o);
+		{ Op o; o.kind = FETCH; o.conn = 1; o.a = 4; o.b = 0; sc.ops.push_back(o); }
+		{ Op o; o.kind = CHANGE; o.conn = 0; o.a = 0; o.b = 2; sc.ops.push_back(o); }
+		{ Op o; o.kind = UNFETCH; o.conn = 1; o.a = 4; sc.ops.push_back(o); }
+		{ Op o; o.kind = REMOVE; o.conn = 0; o.a = 0; sc.ops.push_back(o); }
 		sc.end = end;
 		sc.fail_allocs = doubles; // carried in the scenario: seeds of the random double-fault runs
 		return sc;
